@@ -21,6 +21,12 @@ def subFacts : Facts :=
 inner tracer before the inner flows start -/
 theorem current_relay_first : Bpmn.Gen.C12.subRelayBeforeStart = some true := by decide
 
+/-- activations of one sub-process node take turns in the code as they do in the engine model (`Engine.nextTurn`,
+`Props/C12Turns`): the activation goroutine holds a mutex of the node from before its relay subscribes until it is done.
+When this stops type-checking the model's waiting rule is no longer what the code does; the runner then looks for the failing
+input with the families `c12turns` / `c09turns` (two tokens forked into one sub-process node). -/
+theorem current_activations_take_turns : Bpmn.Gen.C12.subActivationsTakeTurns = some true := by decide
+
 /-- **The inner completion of a sub-process activation.** Monitor subscribed first: the whole C02 statement holds for the
 inner instance with one start event (the inner cease-flow trace — on which the parent token continues — is emitted
 exactly once, after every inner trace, and within bounded steps once no inner token is left). Otherwise: the explicit
